@@ -84,11 +84,13 @@ def run(tier):
                 s = "".join(elems)
                 ctx = {"x": s}
                 k = v["a"]
+                # iteration is measured in characters too: loop.length, loop.index, and loop.last on the last character only
                 src = ("{{ x | length }}|{{ x | reverse }}|{%% for ch in x %%}[{{ ch }}]{%% endfor %%}|{{ x | truncate(length=%d, end='~') }}|"
-                       "{{ x[::-1] }}" % k)
-                exp = "%d|%s|%s|%s|%s" % (n, "".join(elems[i] for i in res["rev"]), "".join("[%s]" % elems[i] for i in res["each"]),
-                                          "".join(elems[i] for i in res["trunc"]["keep"]) + ("~" if res["trunc"]["marker"] else ""),
-                                          "".join(elems[i] for i in res["rev"]))
+                       "{{ x[::-1] }}|{%% for ch in x %%}{{ loop.index }}/{{ loop.length }}{%% if loop.last %%}L{%% endif %%},{%% endfor %%}" % k)
+                exp = "%d|%s|%s|%s|%s|%s" % (n, "".join(elems[i] for i in res["rev"]), "".join("[%s]" % elems[i] for i in res["each"]),
+                                             "".join(elems[i] for i in res["trunc"]["keep"]) + ("~" if res["trunc"]["marker"] else ""),
+                                             "".join(elems[i] for i in res["rev"]),
+                                             "".join("%d/%d%s," % (j + 1, n, "L" if j + 1 == n else "") for j in range(len(res["each"]))))
                 jobs.append({"ctx": ctx, "steps": [{"op": "render_str", "src": src, "auto": False}]})
                 meta.append((vec, cn, src, exp))
     # bounds of a wrong kind: none counts as absent, anything non-integer is an error
